@@ -33,6 +33,7 @@ structure FInv (o : Opt) (sh : Sh p) (w : FW p) : Prop where
   b : Inv sh w.g.w
   h : HInv w.h
   hm : w.g.committed = true → w.h.mapsNil = false
+  hbc : ∀ x, w.h.bc x = w.h.bcC x
   mh : w.g.committed = true → w.mainHosts = anyFin fun x => (w.h.maps x).isSome
   t1 : w.tcp.changed = false → w.g.committed = true → TcpGood w.tcp
   t2 : w.g.committed = false → w.tcp.changed = false → w.tcp.want = 0
@@ -57,10 +58,11 @@ theorem winv_init (sh : Sh p) : WInv sh ({} : FW p) := by
   · intro x; rfl
 
 theorem finv_init (o : Opt) (sh : Sh p) : FInv o sh ({} : FW p) := by
-  refine ⟨?_, ?_, ?_, ?_, ?_, ?_, ?_, ?_, ?_, ?_, ?_⟩
+  refine ⟨?_, ?_, ?_, ?_, ?_, ?_, ?_, ?_, ?_, ?_, ?_, ?_⟩
   · refine ⟨?_, ?_, ?_, ?_, ?_, ?_, ?_⟩ <;> intros <;> simp_all [emp]
   · refine ⟨?_, ?_, ?_, ?_⟩ <;> intro h <;> simp at h
   · intro h; cases h
+  · intro x; rfl
   · intro h; cases h
   · intro _ h; cases h
   · intro _ _; rfl
@@ -175,13 +177,13 @@ theorem removeAll_mem (sh : Sh p) (xs : List (Fin p)) : ∀ (s : Store p) (y : F
 
 theorem step_inv_batch {o : Opt} {sh : Sh p} (wf : sh.WF) {w : FW p} (hi : FInv o sh w) (e : Ev p)
     (hok : okEv w e = true) (hne : ∀ f, e ≠ .upd f) (hnq : ∀ f, e ≠ .qrun f) : FInv o sh (step o sh w e) := by
-  obtain ⟨hb, hh, hhm, hmh, ht1, ht2, hbm1, hbm2, hpc1, hpc2, hr⟩ := hi
+  obtain ⟨hb, hh, hhm, hbc, hmh, ht1, ht2, hbm1, hbm2, hpc1, hpc2, hr⟩ := hi
   cases e with
   | upd f => exact absurd rfl (hne f)
   | qrun f => exact absurd rfl (hnq f)
   | acq x c =>
     have hb' := acquire_inv hb x c
-    refine ⟨hb', hh, hhm, hmh, ht1, ht2, ?_, ?_, ?_, ?_, ?_⟩
+    refine ⟨hb', hh, hhm, hbc, hmh, ht1, ht2, ?_, ?_, ?_, ?_, ?_⟩
     · intro y d hy1 hy2 hy3
       simp only [step, setStore] at hy1 hy2 ⊢
       unfold acquire at hy1 hy2
@@ -228,7 +230,7 @@ theorem step_inv_batch {o : Opt} {sh : Sh p} (wf : sh.WF) {w : FW p} (hi : FInv 
       simp only [okEv, List.all_eq_true] at hok
       simpa using hok x hx
     have hb' := removeAll_inv xs hb hadd
-    refine ⟨hb', hh, hhm, hmh, ht1, ht2, ?_, ?_, ?_, ?_, ?_⟩
+    refine ⟨hb', hh, hhm, hbc, hmh, ht1, ht2, ?_, ?_, ?_, ?_, ?_⟩
     · intro y d hy1 hy2 hy3
       simp only [step, setStore] at hy1 hy2 ⊢
       rw [removeAll_add] at hy1
@@ -275,8 +277,9 @@ theorem step_inv_batch {o : Opt} {sh : Sh p} (wf : sh.WF) {w : FW p} (hi : FInv 
       · exact Or.inr (Or.inr (runGood_congr (w := w) rfl rfl rfl rfl rfl rfl rfl rfl hr))
   | hacq x c =>
     have hm := hacquire_maps w.h x c
-    refine ⟨hb, hacquire_inv hh x c, ?_, ?_, ht1, ht2, hbm1, hbm2, hpc1, hpc2, ?_⟩
+    refine ⟨hb, hacquire_inv hh x c, ?_, ?_, ?_, ht1, ht2, hbm1, hbm2, hpc1, hpc2, ?_⟩
     · intro hc; simp only [step]; rw [hm.2.1]; exact hhm hc
+    · intro y; simp only [step]; rw [hm.2.2.1, hm.2.2.2]; exact hbc y
     · intro hc; simp only [step]; rw [hm.1]; exact hmh hc
     · rcases hr with hr | hr | hr
       · exact Or.inl hr
@@ -288,15 +291,16 @@ theorem step_inv_batch {o : Opt} {sh : Sh p} (wf : sh.WF) {w : FW p} (hi : FInv 
       intro x hx
       simp only [okEv, List.all_eq_true] at hok
       simpa using hok x hx
-    refine ⟨hb, hremoveAll_inv xs hh hadd, ?_, ?_, ht1, ht2, hbm1, hbm2, hpc1, hpc2, ?_⟩
+    refine ⟨hb, hremoveAll_inv xs hh hadd, ?_, ?_, ?_, ht1, ht2, hbm1, hbm2, hpc1, hpc2, ?_⟩
     · intro hc; simp only [step]; rw [hm.2.1]; exact hhm hc
+    · intro y; simp only [step]; rw [hm.2.2.1, hm.2.2.2]; exact hbc y
     · intro hc; simp only [step]; rw [hm.1]; exact hmh hc
     · rcases hr with hr | hr | hr
       · exact Or.inl hr
       · exact Or.inr (Or.inl hr)
       · exact Or.inr (Or.inr (runGood_congr (w := w) rfl rfl hm.1 rfl rfl rfl rfl rfl hr))
   | tcp v =>
-    refine ⟨hb, hh, hhm, hmh, ?_, ?_, hbm1, hbm2, hpc1, hpc2, ?_⟩
+    refine ⟨hb, hh, hhm, hbc, hmh, ?_, ?_, hbm1, hbm2, hpc1, hpc2, ?_⟩
     · intro hc; simp [step] at hc
     · intro _ hc; simp [step] at hc
     · rcases hr with hr | hr | hr
@@ -310,8 +314,9 @@ theorem step_inv_batch {o : Opt} {sh : Sh p} (wf : sh.WF) {w : FW p} (hi : FInv 
       have := (anyFin_false_iff _).1 hok x
       cases ha : w.g.w.store.add x <;> cases hd : w.g.w.store.del x <;> simp_all
     have hb' := clear_inv wf hb hclean
-    refine ⟨hb', hclear_inv w.h, ?_, ?_, ?_, ?_, ?_, ?_, ?_, ?_, ?_⟩
+    refine ⟨hb', hclear_inv w.h, ?_, ?_, ?_, ?_, ?_, ?_, ?_, ?_, ?_, ?_⟩
     · intro hc; simp [step] at hc
+    · intro y; exact hbc y
     · intro hc; simp [step] at hc
     · intro _ hc; simp [step] at hc
     · intro _ _; rfl
@@ -781,5 +786,961 @@ theorem anyRange_false {f : Nat → Bool} {lo : Nat} : ∀ {n : Nat}, anyRange f
     · subst hin; exact h.1
     · exact ih h.2 i (by omega)
 
+
+/-! ### the state after the deferred `Commit()` -/
+
+theorem updateWith_eq (s : HStore p) : s.updateWith true = hCommit (hWrite s.shrink) := by
+  unfold HStore.updateWith hCommit hWrite hSkip
+  simp only [Bool.true_and]
+
+theorem want_isSome (s : HStore p) (x : Fin p) : (s.want x).isSome = (s.items x).isSome := by
+  unfold HStore.want; cases s.items x <;> rfl
+
+theorem commitAll_spec {o : Opt} {sh : Sh p} {X : FW p} {s : Store p} {hs : HStore p}
+    (hs1 : sh.n ≠ 0 → ∀ k x, s.shards k x = if sh.shardOf x = k then s.items x else none)
+    (hgood : ∀ k x, X.g.w.disk k x = itemsIn sh s k x)
+    (hXh : X.h.maps = hs.maps)
+    (hH : HInv (hCommit hs)) (hmaps : ∀ x, hs.maps x = (hCommit hs).want x) (hnil : hs.mapsNil = false)
+    (hmh : X.mainHosts = anyFin fun x => (hs.maps x).isSome)
+    (htcp : TcpGood X.tcp)
+    (hbm : ∀ x c, s.items x = some c → o.needACL (conf c) = true → X.bm x = some (conf c))
+    (hpc : ∀ x, (s.items x).isSome = true → X.pcI x = true ∧ X.pmI x = true)
+    (hr : X.reloadOwed = true ∨ X.pending = true ∨ RunGood sh X) :
+    FInv o sh (commitAll X s hs) ∧ DiskGood o sh (commitAll X s hs) := by
+  have hrun : (commitAll X s hs).reloadOwed = true ∨ (commitAll X s hs).pending = true ∨
+      RunGood sh (commitAll X s hs) := by
+    rcases hr with hr | hr | hr
+    · exact Or.inl hr
+    · exact Or.inr (Or.inl hr)
+    · exact Or.inr (Or.inr (runGood_congr (w := X) rfl rfl hXh.symm rfl rfl rfl rfl rfl hr))
+  have hmh' : (commitAll X s hs).mainHosts = hasHosts (commitAll X s hs).h := by
+    show X.mainHosts = hasHosts (hCommit hs)
+    rw [hmh]
+    unfold hasHosts
+    congr 1
+    funext x
+    rw [hmaps x, want_isSome]
+  refine ⟨⟨?_, hH, fun _ => hnil, fun _ => rfl, fun _ => hmh, fun _ _ => htcp, ?_, ?_, ?_, ?_, ?_, hrun⟩,
+    ⟨hgood, hmaps, hmh', htcp.1, htcp.2, hbm⟩⟩
+  · refine ⟨?_, ?_, ?_, ?_, ?_, ?_, ?_⟩
+    · intro x c hx; simp [commitAll, commit, emp] at hx
+    · intro x _ _
+      have := hgood (sh.shardOf x) x
+      simp only [itemsIn, if_true] at this
+      exact this.symm
+    · intro x _ hx; simp [commitAll, commit, emp] at hx
+    · intro x d hx; simp [commitAll, commit, emp] at hx
+    · intro _ x hx; simp [commitAll, commit, emp] at hx
+    · intro hn k x; exact hs1 hn k x
+    · intro k x hk
+      have := hgood k x
+      simp only [itemsIn, hk, if_false] at this
+      exact this
+  · intro h; cases h
+  · intro x c _ hx hn; exact hbm x c hx hn
+  · intro x d hx; simp [commitAll, commit, emp] at hx
+  · intro x _ hx; exact hpc x hx
+  · intro x hx; simp [commitAll, commit, emp] at hx
+
+
+/-- whatever was written: after the deferred `Commit()` the stores are consistent in themselves -/
+theorem winv_commitAll {sh : Sh p} {X : FW p} {s : Store p} {hs : HStore p} (hsi : SInv sh s)
+    (hg : ∀ k x, sh.shardOf x ≠ k → X.g.w.disk k x = none) : WInv sh (commitAll X s hs) :=
+  ⟨sinv_commit hsi, hg, fun _ => rfl⟩
+
+theorem writeCfg_g {sh : Sh p} {s : Store p} {d : Disk p} (hsi : SInv sh s) (wf : sh.WF)
+    (hg : ∀ k x, sh.shardOf x ≠ k → d k x = none) (lim : Option Nat) :
+    ∀ k x, sh.shardOf x ≠ k → writeCfg sh s d lim k x = none := by
+  intro k x hk
+  unfold writeCfg
+  by_cases hn : sh.n = 0
+  · simp only [hn, if_true]
+    have hwf := wf x
+    simp only [hn, if_true] at hwf
+    by_cases hk0 : k = 0
+    · exact absurd (hk0 ▸ hwf) hk
+    · simp only [hk0, if_false]; exact hg k x hk
+  · simp only [hn, if_false]
+    have hsk : s.shards k x = none := by rw [hsi.s1 hn k x]; simp [hk]
+    cases lim with
+    | none =>
+      simp only []
+      split
+      · exact hsk
+      · exact hg k x hk
+    | some f =>
+      simp only []
+      split
+      · exact hsk
+      · exact hg k x hk
+
+
+/-! ### stages 6 to 8 -/
+
+theorem writeCfg_none (sh : Sh p) (s : Store p) (d : Disk p) : writeCfg sh s d none = write sh s d := by
+  unfold writeCfg write
+  split
+  · rfl
+  · funext k; simp
+
+/-- what is known about the running HAProxy in terms of the in-memory model (used when no reload follows) -/
+def RunMatches (s : Store p) (X : FW p) : Prop :=
+  (∀ x c, s.items x = some c → X.run.back x = some c) ∧
+  (∀ x, X.run.maps x = if X.mainHosts then X.h.maps x else none) ∧
+  (∀ x, X.run.bm x = X.bm x) ∧
+  X.run.tcpMap = X.tcp.map ∧ X.run.tcpCrt = X.tcp.crt ∧ X.run.tcpMain = X.tcp.main
+
+theorem runGood_load {sh : Sh p} {X : FW p} (h : X.run = load sh X) : RunGood sh X := by
+  refine ⟨?_, ?_, ?_, ?_, ?_, ?_⟩
+  · intro x c hx; rw [h]; exact hx
+  · intro x; rw [h]
+  · intro x; rw [h]
+  · rw [h]; rfl
+  · rw [h]; rfl
+  · rw [h]; rfl
+
+theorem runGood_of_matches {sh : Sh p} {X : FW p} {s : Store p}
+    (hgood : ∀ k x, X.g.w.disk k x = itemsIn sh s k x) (h : RunMatches s X) : RunGood sh X := by
+  obtain ⟨h1, h2, h3, h4, h5, h6⟩ := h
+  refine ⟨?_, h2, h3, h4, h5, h6⟩
+  intro x c hx
+  simp only [load] at hx
+  rw [hgood] at hx
+  simp only [itemsIn, if_true] at hx
+  exact h1 x c hx
+
+/-- every shard flagged: the write renders every file from the stores, whatever the files held -/
+theorem forced_write_good {sh : Sh p} (wf : sh.WF) {s : Store p} {d : Disk p} (hsi : SInv sh s)
+    (hall : ∀ k, k < sh.n → s.changed k = true) (hg : ∀ k x, sh.shardOf x ≠ k → d k x = none) :
+    ∀ k x, write sh s d k x = itemsIn sh s k x := by
+  intro k x
+  have hwf := wf x
+  unfold write itemsIn
+  by_cases hn : sh.n = 0
+  · simp only [hn, if_true] at hwf ⊢
+    by_cases hk : k = 0
+    · simp [hk, hwf]
+    · have : sh.shardOf x ≠ k := by omega
+      simp only [hk, if_false, this]; exact hg k x this
+  · simp only [hn, if_false] at hwf ⊢
+    by_cases hch : s.changed k = true
+    · simp only [hch, if_true]; exact hsi.s1 hn k x
+    · have hkn : ¬ k < sh.n := fun h => hch (hall k h)
+      have hk : sh.shardOf x ≠ k := by omega
+      simp only [hch, Bool.false_eq_true, if_false, hk]
+      exact hg k x hk
+
+theorem shardLim_isWrite {o : Opt} {sh : Sh p} {f : Fault} {s : Store p} {pm : Fin p → Bool}
+    (hbad : ∀ x, badX o s pm x = false) (h : (shardLim o sh f s pm).isSome = true) : f.isWrite = true := by
+  unfold shardLim at h
+  split at h
+  · cases h
+  · rw [List.find?_isSome] at h
+    obtain ⟨k, _, hk⟩ := h
+    have h2 : (anyFin fun x => decide (sh.shardOf x = k) && badX o s pm x) = false := by
+      rw [anyFin_false_iff]; intro x; simp [hbad x]
+    simp only [h2, Bool.or_false, Bool.and_eq_true] at hk
+    cases f <;> simp_all [Fault.isShard, Fault.isWrite]
+
+/-- outcome of stages 6 to 8, whatever the fault: either the update stops at a file it cannot write
+(error, a rewrite stays owed, the stores stay consistent), or it gets past writeConfig: the files hold
+the model, nothing is owed but possibly the reload -/
+theorem post_spec {o : Opt} {sh : Sh p} (wf : sh.WF) (f : Fault) {m : Mid p}
+    (hsi : SInv sh m.s) (hg : ∀ k x, sh.shardOf x ≠ k → m.w.g.w.disk k x = none)
+    (hro : m.w.rewriteOwed = true)
+    (hW : (!m.updated || decide (0 < m.sends) || m.bchg) = true →
+      ∀ k x, write sh m.s m.w.g.w.disk k x = itemsIn sh m.s k x)
+    (hbad : ∀ x, badX o m.s m.w.pmI x = false)
+    (hXh : m.w.h.maps = m.hs.maps)
+    (hH : HInv (hCommit m.hs)) (hmaps : ∀ x, m.hs.maps x = (hCommit m.hs).want x) (hnil : m.hs.mapsNil = false)
+    (htcp : m.w.tcp.want ≠ 0 → m.w.tcp.map = m.w.tcp.want ∧ m.w.tcp.crt = m.w.tcp.want)
+    (hbm : ∀ x c, m.s.items x = some c → o.needACL (conf c) = true → m.w.bm x = some (conf c))
+    (hpc : ∀ x, (m.s.items x).isSome = true → m.w.pcI x = true ∧ m.w.pmI x = true)
+    (hq : o.queue = false → m.w.pending = false)
+    (hskip : m.updated = true → m.sends = 0 → m.bchg = false → ∀ k x, m.w.g.w.disk k x = itemsIn sh m.s k x)
+    (hupd : m.updated = true → m.w.tcp.main = m.w.tcp.want ∧
+        m.w.mainHosts = (anyFin fun x => (m.hs.maps x).isSome) ∧
+        (m.w.reloadOwed = true ∨ m.w.pending = true ∨ RunMatches m.s m.w)) :
+    (f.isWrite = true ∧ (post o sh f m).err = true ∧ (post o sh f m).w.rewriteOwed = true ∧
+      WInv sh (post o sh f m).w ∧ (o.queue = false → (post o sh f m).w.pending = false)) ∨
+    ((post o sh f m).w.rewriteOwed = false ∧ FInv o sh (post o sh f m).w ∧ DiskGood o sh (post o sh f m).w ∧
+      (o.queue = false → (post o sh f m).w.pending = false) ∧
+      (f.isReload = false → (post o sh f m).err = false ∧
+        (o.repaired = true → o.queue = false → RunGood sh (post o sh f m).w ∧ (post o sh f m).w.reloadOwed = false)) ∧
+      (o.repaired = true → (f.isReload = false ∨ o.queue = true) →
+        (post o sh f m).w.pending = true ∨ (post o sh f m).w.reloadOwed = false)) := by
+  have hmb : (decide (sh.n = 0) && anyFin (badX o m.s m.w.pmI)) = false := by
+    have : anyFin (badX o m.s m.w.pmI) = false := by rw [anyFin_false_iff]; exact hbad
+    simp [this]
+  unfold post
+  simp only [hmb, Bool.or_false]
+  by_cases hc1 : ((!m.updated || decide (0 < m.sends) || m.bchg) && (f == .mainCfg)) = true
+  · -- haproxy.cfg cannot be written
+    rw [if_pos hc1]
+    have hfw : f.isWrite = true := by
+      simp only [Bool.and_eq_true, beq_iff_eq] at hc1
+      rw [hc1.2]; rfl
+    exact Or.inl ⟨hfw, by first | rfl | trivial, hro, winv_commitAll hsi hg, hq⟩
+  rw [if_neg hc1]
+  by_cases hc2 : ((!m.updated || decide (0 < m.sends) || m.bchg) && (shardLim o sh f m.s m.w.pmI).isSome) = true
+  · -- a shard file cannot be written: the ones before it were
+    rw [if_pos hc2]
+    have hdw : (!m.updated || decide (0 < m.sends) || m.bchg) = true := by
+      simp only [Bool.and_eq_true] at hc2; exact hc2.1
+    rw [if_pos hdw]
+    have hfw : f.isWrite = true := by
+      simp only [hdw, Bool.true_and] at hc2
+      exact shardLim_isWrite hbad hc2
+    refine Or.inl ⟨hfw, by first | rfl | trivial, hro, winv_commitAll hsi ?_, hq⟩
+    exact writeCfg_g hsi wf hg _
+  rw [if_neg hc2]
+  right
+  -- the files after stage 6
+  by_cases hdw : (!m.updated || decide (0 < m.sends) || m.bchg) = true
+  · have hlim : shardLim o sh f m.s m.w.pmI = none := by
+      simp only [hdw, Bool.true_and] at hc2
+      cases h : shardLim o sh f m.s m.w.pmI with
+      | none => rfl
+      | some k => rw [h] at hc2; simp at hc2
+    simp only [hdw, if_true, hlim, writeCfg_none]
+    have hgood := hW hdw
+    have hpcI : ∀ x, (m.s.items x).isSome = true → (rendered sh m.s none x || m.w.pcI x) = true ∧ m.w.pmI x = true := by
+      intro x hx; have := hpc x hx; simp [this.1, this.2]
+    by_cases hu : (m.updated && !(o.repaired && m.w.reloadOwed)) = true
+    · -- no reload: every change was applied at run time
+      have hmu : m.updated = true := by simp only [Bool.and_eq_true] at hu; exact hu.1
+      simp only [hu, if_true]
+      obtain ⟨hmain, hmhs, hrun⟩ := hupd hmu
+      have key := commitAll_spec (o := o) (sh := sh) (s := m.s) (hs := m.hs)
+        (X := { setDisk m.w (write sh m.s m.w.g.w.disk) with
+                tcp := { m.w.tcp with main := m.w.tcp.want }
+                mainHosts := anyFin fun x => (m.hs.maps x).isSome
+                pcI := fun x => rendered sh m.s none x || m.w.pcI x
+                rewriteOwed := false })
+        hsi.s1 hgood hXh hH hmaps hnil rfl ⟨htcp, rfl⟩ hbm hpcI ?_
+      · have hnro : o.repaired = true → m.w.reloadOwed = false := by
+          intro hrep
+          simp only [Bool.and_eq_true, Bool.not_eq_true', hrep, Bool.true_and] at hu; exact hu.2
+        refine ⟨by first | rfl | trivial, key.1, key.2, hq, ?_, fun hrep _ => Or.inr (hnro hrep)⟩
+        intro _
+        refine ⟨by first | rfl | trivial, ?_⟩
+        intro hrep hqf
+        have hnro := hnro hrep
+        rcases key.1.r with h | h | h
+        · have h' : m.w.reloadOwed = true := h
+          rw [hnro] at h'; cases h'
+        · have h' : m.w.pending = true := h
+          rw [hq hqf] at h'; cases h'
+        · exact ⟨h, hnro⟩
+      · rcases hrun with hp | hp | hrm
+        · exact Or.inl hp
+        · exact Or.inr (Or.inl hp)
+        · refine Or.inr (Or.inr (runGood_of_matches (s := m.s) hgood ?_))
+          obtain ⟨h1, h2, h3, h4, h5, h6⟩ := hrm
+          refine ⟨h1, ?_, h3, h4, h5, ?_⟩
+          · intro x
+            show m.w.run.maps x = if (anyFin fun x => (m.hs.maps x).isSome) = true then m.w.h.maps x else none
+            rw [h2 x, hmhs]
+          · show m.w.run.tcpMain = m.w.tcp.want
+            rw [h6, hmain]
+    · simp only [hu, Bool.false_eq_true, if_false]
+      by_cases hqq : o.queue = true
+      · -- the reload is left to the queue worker
+        simp only [hqq, if_true]
+        have key := commitAll_spec (o := o) (sh := sh) (s := m.s) (hs := m.hs)
+          (X := { setDisk m.w (write sh m.s m.w.g.w.disk) with
+                  tcp := { m.w.tcp with main := m.w.tcp.want }
+                  mainHosts := anyFin fun x => (m.hs.maps x).isSome
+                  pcI := fun x => rendered sh m.s none x || m.w.pcI x
+                  rewriteOwed := false, pending := true })
+          hsi.s1 hgood hXh hH hmaps hnil rfl ⟨htcp, rfl⟩ hbm hpcI (Or.inr (Or.inl rfl))
+        refine ⟨by first | rfl | trivial, key.1, key.2, ?_, ?_, fun _ _ => Or.inl rfl⟩
+        · intro hq0; cases hq0
+        · intro _
+          refine ⟨by first | rfl | trivial, ?_⟩
+          intro _ hq0; cases hq0
+      · -- direct reload
+        simp only [hqq, Bool.false_eq_true, if_false]
+        have hqf : o.queue = false := by cases h : o.queue <;> simp_all
+        cases hrl : f.isReload with
+        | true =>
+          simp only [reload, hrl, if_true]
+          have key := commitAll_spec (o := o) (sh := sh) (s := m.s) (hs := m.hs)
+            (X := { setDisk m.w (write sh m.s m.w.g.w.disk) with
+                    tcp := { m.w.tcp with main := m.w.tcp.want }
+                    mainHosts := anyFin fun x => (m.hs.maps x).isSome
+                    pcI := fun x => rendered sh m.s none x || m.w.pcI x
+                    rewriteOwed := false, reloadOwed := true })
+            hsi.s1 hgood hXh hH hmaps hnil rfl ⟨htcp, rfl⟩ hbm hpcI (Or.inl rfl)
+          exact ⟨by first | rfl | trivial, key.1, key.2, fun _ => hq hqf, (fun h => by cases h),
+            (fun _ h => Or.elim h (fun h => by cases h) (fun h => by first | cases h | (rw [hqf] at h; cases h)))⟩
+        | false =>
+          simp only [reload, hrl, Bool.false_eq_true, if_false]
+          have key := commitAll_spec (o := o) (sh := sh) (s := m.s) (hs := m.hs)
+            (X := { setDisk m.w (write sh m.s m.w.g.w.disk) with
+                    tcp := { m.w.tcp with main := m.w.tcp.want }
+                    mainHosts := anyFin fun x => (m.hs.maps x).isSome
+                    pcI := fun x => rendered sh m.s none x || m.w.pcI x
+                    rewriteOwed := false
+                    run := load sh { setDisk m.w (write sh m.s m.w.g.w.disk) with
+                      tcp := { m.w.tcp with main := m.w.tcp.want }
+                      mainHosts := anyFin fun x => (m.hs.maps x).isSome }
+                    reloadOwed := false })
+            hsi.s1 hgood hXh hH hmaps hnil rfl ⟨htcp, rfl⟩ hbm hpcI (Or.inr (Or.inr (runGood_load rfl)))
+          refine ⟨by first | rfl | trivial, key.1, key.2, fun _ => hq hqf, fun _ => ⟨by first | rfl | trivial, fun _ _ => ⟨?_, by first | rfl | trivial⟩⟩,
+            fun _ _ => Or.inr rfl⟩
+          rcases key.1.r with h | h | h
+          · cases h
+          · have h' : m.w.pending = true := h
+            rw [hq hqf] at h'; cases h'
+          · exact h
+  · -- writeConfig was skipped
+    have hmu : m.updated = true := by cases h : m.updated <;> simp_all
+    have hs0 : m.sends = 0 := by cases h : m.updated <;> simp_all
+    have hb0 : m.bchg = false := by cases h : m.bchg <;> simp_all
+    simp only [hdw, Bool.false_eq_true, if_false]
+    obtain ⟨hmain, hmhs, hrun⟩ := hupd hmu
+    have hgood := hskip hmu hs0 hb0
+    by_cases hu : (m.updated && !(o.repaired && m.w.reloadOwed)) = true
+    · simp only [hu, if_true]
+      have key := commitAll_spec (o := o) (sh := sh) (s := m.s) (hs := m.hs)
+        (X := { m.w with rewriteOwed := false })
+        hsi.s1 hgood hXh hH hmaps hnil hmhs ⟨htcp, hmain⟩ hbm hpc ?_
+      · have hnro : o.repaired = true → m.w.reloadOwed = false := by
+          intro hrep
+          simp only [Bool.and_eq_true, Bool.not_eq_true', hrep, Bool.true_and] at hu; exact hu.2
+        refine ⟨by first | rfl | trivial, key.1, key.2, hq, ?_, fun hrep _ => Or.inr (hnro hrep)⟩
+        intro _
+        refine ⟨by first | rfl | trivial, ?_⟩
+        intro hrep hqf
+        have hnro := hnro hrep
+        rcases key.1.r with h | h | h
+        · have h' : m.w.reloadOwed = true := h
+          rw [hnro] at h'; cases h'
+        · have h' : m.w.pending = true := h
+          rw [hq hqf] at h'; cases h'
+        · exact ⟨h, hnro⟩
+      · rcases hrun with hp | hp | hrm
+        · exact Or.inl hp
+        · exact Or.inr (Or.inl hp)
+        · exact Or.inr (Or.inr (runGood_of_matches (X := { m.w with rewriteOwed := false }) hgood hrm))
+    · -- nothing changed, but the last reload failed: reload again
+      simp only [hu, Bool.false_eq_true, if_false]
+      by_cases hqq : o.queue = true
+      · simp only [hqq, if_true]
+        have key := commitAll_spec (o := o) (sh := sh) (s := m.s) (hs := m.hs)
+          (X := { m.w with rewriteOwed := false, pending := true })
+          hsi.s1 hgood hXh hH hmaps hnil hmhs ⟨htcp, hmain⟩ hbm hpc (Or.inr (Or.inl rfl))
+        refine ⟨by first | rfl | trivial, key.1, key.2, ?_, ?_, fun _ _ => Or.inl rfl⟩
+        · intro hq0; cases hq0
+        · intro _
+          refine ⟨by first | rfl | trivial, ?_⟩
+          intro _ hq0; cases hq0
+      · simp only [hqq, Bool.false_eq_true, if_false]
+        have hqf : o.queue = false := by cases h : o.queue <;> simp_all
+        cases hrl : f.isReload with
+        | true =>
+          simp only [reload, hrl, if_true]
+          have key := commitAll_spec (o := o) (sh := sh) (s := m.s) (hs := m.hs)
+            (X := { m.w with rewriteOwed := false, reloadOwed := true })
+            hsi.s1 hgood hXh hH hmaps hnil hmhs ⟨htcp, hmain⟩ hbm hpc (Or.inl rfl)
+          exact ⟨by first | rfl | trivial, key.1, key.2, fun _ => hq hqf, (fun h => by cases h),
+            (fun _ h => Or.elim h (fun h => by cases h) (fun h => by first | cases h | (rw [hqf] at h; cases h)))⟩
+        | false =>
+          simp only [reload, hrl, Bool.false_eq_true, if_false]
+          have key := commitAll_spec (o := o) (sh := sh) (s := m.s) (hs := m.hs)
+            (X := { m.w with rewriteOwed := false, run := load sh m.w, reloadOwed := false })
+            hsi.s1 hgood hXh hH hmaps hnil hmhs ⟨htcp, hmain⟩ hbm hpc (Or.inr (Or.inr (runGood_load rfl)))
+          refine ⟨by first | rfl | trivial, key.1, key.2, fun _ => hq hqf, fun _ => ⟨by first | rfl | trivial, fun _ _ => ⟨?_, by first | rfl | trivial⟩⟩,
+            fun _ _ => Or.inr rfl⟩
+          rcases key.1.r with h | h | h
+          · cases h
+          · have h' : m.w.pending = true := h
+            rw [hq hqf] at h'; cases h'
+          · exact h
+
+/-! ### `HAProxyUpdate` from the invariant, whatever the fault -/
+
+theorem sinv_s0Of {sh : Sh p} {w : FW p} (h : SInv sh w.g.w.store) (rw : Bool) : SInv sh (s0Of sh rw w) := by
+  unfold s0Of
+  cases rw
+  · exact sinv_shrink h
+  · exact sinv_allShards (sinv_shrink h)
+
+@[simp] theorem w0Of_g (w : FW p) : (w0Of w).g = w.g := rfl
+@[simp] theorem w0Of_pending (w : FW p) : (w0Of w).pending = w.pending := rfl
+@[simp] theorem w0Of_rewriteOwed (w : FW p) : (w0Of w).rewriteOwed = true := rfl
+
+/-- an update that stops in stages 1 to 4: error, a rewrite stays owed, the stores stay consistent -/
+theorem pre_err {o : Opt} {sh : Sh p} {w : FW p} {f : Fault} {r : Res p} (hw : WInv sh w)
+    (h : pre o sh f w = .error r) :
+    f.isWrite = true ∧ r.err = true ∧ r.w.rewriteOwed = true ∧ WInv sh r.w ∧ r.w.pending = w.pending := by
+  have hs0 := sinv_s0Of hw.s (o.repaired && w.rewriteOwed)
+  have hwr : ∀ {b : Bool} {g : Fault}, g.isWrite = true → (b && f == g) = true → f.isWrite = true := by
+    intro b g hg hb
+    simp only [Bool.and_eq_true, beq_iff_eq] at hb
+    rw [hb.2]; exact hg
+  unfold pre at h
+  split at h
+  · rename_i hc
+    cases h
+    exact ⟨hwr rfl hc, rfl, rfl, winv_commitAll hs0 hw.g, rfl⟩
+  unfold pre2 at h
+  split at h
+  · rename_i hc
+    cases h
+    refine ⟨hwr rfl hc, rfl, ?_, winv_commitAll hs0 ?_, ?_⟩
+    · show (tcpStage _ (w0Of w)).rewriteOwed = true
+      simp
+    · show ∀ k x, sh.shardOf x ≠ k → (tcpStage _ (w0Of w)).g.w.disk k x = none
+      simp only [tcpStage_g, w0Of_g]; exact hw.g
+    · show (tcpStage _ (w0Of w)).pending = w.pending
+      simp
+  unfold pre3 at h
+  split at h
+  · rename_i hc
+    cases h
+    refine ⟨hwr rfl hc, rfl, ?_, winv_commitAll hs0 ?_, ?_⟩
+    · show (flagStage _ _ { tcpStage _ (w0Of w) with h := _ }).rewriteOwed = true
+      simp
+    · show ∀ k x, sh.shardOf x ≠ k → (flagStage _ _ { tcpStage _ (w0Of w) with h := _ }).g.w.disk k x = none
+      simp only [flagStage_g, tcpStage_g, w0Of_g]; exact hw.g
+    · show (flagStage _ _ { tcpStage _ (w0Of w) with h := _ }).pending = w.pending
+      simp
+  unfold pre4 at h
+  split at h
+  · rename_i hc
+    cases h
+    refine ⟨hwr rfl hc, rfl, ?_, winv_commitAll hs0 ?_, ?_⟩
+    · show (bmStage _ _ _ (flagStage _ _ { tcpStage _ (w0Of w) with h := _ })).rewriteOwed = true
+      simp
+    · show ∀ k x, sh.shardOf x ≠ k →
+        (bmStage _ _ _ (flagStage _ _ { tcpStage _ (w0Of w) with h := _ })).g.w.disk k x = none
+      simp only [bmStage_g, flagStage_g, tcpStage_g, w0Of_g]; exact hw.g
+    · show (bmStage _ _ _ (flagStage _ _ { tcpStage _ (w0Of w) with h := _ })).pending = w.pending
+      simp
+  cases h
+
+theorem shrink_items (sh : Sh p) (s : Store p) (x : Fin p) :
+    (shrink sh s).items x = if matched s x then s.del x else s.items x := rfl
+theorem shrink_add (sh : Sh p) (s : Store p) (x : Fin p) :
+    (shrink sh s).add x = if matched s x then none else s.add x := rfl
+theorem shrink_del (sh : Sh p) (s : Store p) (x : Fin p) :
+    (shrink sh s).del x = if matched s x then none else s.del x := rfl
+
+theorem backChanged_of_add {s : Store p} {x : Fin p} (h : (s.add x).isSome = true) : backChanged s = true := by
+  unfold backChanged; rw [anyFin_iff]; exact ⟨x, by simp [h]⟩
+
+theorem backChanged_false {s : Store p} (h : backChanged s = false) (x : Fin p) : s.add x = none ∧ s.del x = none := by
+  unfold backChanged at h
+  have := (anyFin_false_iff _).1 h x
+  cases ha : s.add x <;> cases hd : s.del x <;> simp_all
+
+
+@[simp] theorem s0Of_false (sh : Sh p) (w : FW p) : s0Of sh false w = shrink sh w.g.w.store := by simp [s0Of]
+@[simp] theorem s0Of_true (sh : Sh p) (w : FW p) : s0Of sh true w = allShards sh (shrink sh w.g.w.store) := by simp [s0Of]
+@[simp] theorem hs0Of_false (w : FW p) : hs0Of false w = w.h.shrink := by simp [hs0Of]
+@[simp] theorem hs0Of_true (w : FW p) : hs0Of true w = { w.h.shrink with mapsNil := true } := by simp [hs0Of]
+@[simp] theorem visOf_false (s0 : Store p) : visOf false s0 = s0.add := by simp [visOf]
+@[simp] theorem visOf_true (s0 : Store p) : visOf true s0 = s0.items := by simp [visOf]
+
+/-! #### no rewrite owed: the files follow the stores -/
+
+/-- every backend that has an item after `Shrink` has its `pathConfig` and its `PathsMap` once
+WriteBackendMaps has run -/
+theorem flags_after_maps {o : Opt} {sh : Sh p} {w : FW p} (hi : FInv o sh w) (x : Fin p)
+    (hx : ((shrink sh w.g.w.store).items x).isSome = true) :
+    (w4Of o sh false w).pcI x = true ∧ (w4Of o sh false w).pmI x = true := by
+  rw [w4Of_pcI, w4Of_pmI]
+  simp only [s0Of_false, visOf_false, Bool.or_false]
+  cases ha : (shrink sh w.g.w.store).add x with
+  | some a =>
+    have := backChanged_of_add (s := shrink sh w.g.w.store) (x := x) (by simp [ha])
+    simp [this]
+  | none =>
+    rw [shrink_items] at hx
+    rw [shrink_add] at ha
+    by_cases hm : matched w.g.w.store x = true
+    · obtain ⟨d, a, hd, _, _⟩ := (matched_iff _ _).1 hm
+      have := hi.pc2 x (by simp [hd])
+      simp [hm, this.1, this.2]
+    · simp only [hm, Bool.false_eq_true, if_false] at hx ha
+      have := hi.pc1 x ha hx
+      simp [hm, this.1, this.2]
+
+theorem bm_after_maps {o : Opt} {sh : Sh p} {w : FW p} (hi : FInv o sh w) (x : Fin p) (c : Content)
+    (hx : (shrink sh w.g.w.store).items x = some c) (hn : o.needACL (conf c) = true) :
+    (w4Of o sh false w).bm x = some (conf c) := by
+  have hI0 : Inv sh { store := shrink sh w.g.w.store, disk := w.g.w.disk } := shrink_inv hi.b
+  rw [w4Of_bm]
+  simp only [s0Of_false, visOf_false, Bool.or_false]
+  cases ha : (shrink sh w.g.w.store).add x with
+  | some a =>
+    have hb := backChanged_of_add (s := shrink sh w.g.w.store) (x := x) (by simp [ha])
+    have hca : (shrink sh w.g.w.store).items x = some a := hI0.a x a ha
+    rw [hx] at hca
+    cases hca
+    simp [hb, hn]
+  | none =>
+    have hbm : w.bm x = some (conf c) := by
+      rw [shrink_items] at hx
+      rw [shrink_add] at ha
+      by_cases hm : matched w.g.w.store x = true
+      · simp only [hm, if_true] at hx
+        exact hi.bm2 x c hx hn
+      · simp only [hm, Bool.false_eq_true, if_false] at hx ha
+        exact hi.bm1 x c ha hx hn
+    split <;> exact hbm
+
+theorem hosts_after_write {o : Opt} {sh : Sh p} {w : FW p} (hi : FInv o sh w) :
+    HInv (hCommit (hWrite w.h.shrink)) ∧
+    (∀ x, (hWrite w.h.shrink).maps x = (hCommit (hWrite w.h.shrink)).want x) ∧
+    (hWrite w.h.shrink).mapsNil = false := by
+  have := hupdate_good hi.h true (Or.inl rfl)
+  rw [updateWith_eq] at this
+  exact ⟨this.2.2, this.1, this.2.1⟩
+
+theorem tcp_after_lists {o : Opt} {sh : Sh p} {w : FW p} (hi : FInv o sh w) :
+    (w4Of o sh false w).tcp.want ≠ 0 →
+      (w4Of o sh false w).tcp.map = (w4Of o sh false w).tcp.want ∧
+      (w4Of o sh false w).tcp.crt = (w4Of o sh false w).tcp.want := by
+  rw [w4Of_tcp_want, w4Of_tcp_map, w4Of_tcp_crt]
+  intro hw
+  have hw' : (w.tcp.want != 0) = true := by simpa using hw
+  refine ⟨?_, by simp [hw']⟩
+  simp only [tcpWrites, Bool.false_and, Bool.or_false]
+  by_cases hc : w.tcp.changed = true
+  · simp [hc]
+  · have hc' : w.tcp.changed = false := by simpa using hc
+    simp only [hc, Bool.false_eq_true, if_false]
+    cases hcm : w.g.committed with
+    | true => exact ((hi.t1 hc' hcm).1 hw).1
+    | false => exact absurd (hi.t2 hcm hc') hw
+
+/-! #### a rewrite is owed: everything is rendered again, whatever the files hold -/
+
+theorem flags_after_rewrite (o : Opt) (sh : Sh p) (w : FW p) (x : Fin p)
+    (hx : ((allShards sh (shrink sh w.g.w.store)).items x).isSome = true) :
+    (w4Of o sh true w).pcI x = true ∧ (w4Of o sh true w).pmI x = true := by
+  rw [w4Of_pcI, w4Of_pmI]
+  simp only [s0Of_true, visOf_true, Bool.or_true, Bool.true_and, hx, Bool.true_or, and_self]
+
+theorem bm_after_rewrite (o : Opt) (sh : Sh p) (w : FW p) (x : Fin p) (c : Content)
+    (hx : (allShards sh (shrink sh w.g.w.store)).items x = some c) (hn : o.needACL (conf c) = true) :
+    (w4Of o sh true w).bm x = some (conf c) := by
+  rw [w4Of_bm]
+  simp only [s0Of_true, visOf_true, Bool.or_true, if_true, hx, hn]
+
+theorem hosts_after_rewrite (w : FW p) :
+    HInv (hCommit (hWrite { w.h.shrink with mapsNil := true })) ∧
+    (∀ x, (hWrite { w.h.shrink with mapsNil := true }).maps x =
+      (hCommit (hWrite { w.h.shrink with mapsNil := true })).want x) ∧
+    (hWrite { w.h.shrink with mapsNil := true }).mapsNil = false := by
+  have hnil : HInv ({ w.h with mapsNil := true } : HStore p) := by
+    refine ⟨?_, ?_, ?_, ?_⟩ <;> intro h <;> cases h
+  have := hupdate_good hnil true (Or.inl rfl)
+  rw [updateWith_eq] at this
+  exact ⟨this.2.2, this.1, this.2.1⟩
+
+theorem tcp_after_rewrite (o : Opt) (sh : Sh p) (w : FW p) :
+    (w4Of o sh true w).tcp.want ≠ 0 →
+      (w4Of o sh true w).tcp.map = (w4Of o sh true w).tcp.want ∧
+      (w4Of o sh true w).tcp.crt = (w4Of o sh true w).tcp.want := by
+  rw [w4Of_tcp_want, w4Of_tcp_map, w4Of_tcp_crt]
+  intro hw
+  have hw' : (w.tcp.want != 0) = true := by simpa using hw
+  simp [tcpWrites, hw']
+
+theorem setEpv_eq {d a : Content} (hc : conf a = conf d) : setEpv d (epv a) = { cfg := a.cfg, slots := d.slots } := by
+  unfold setEpv epv
+  unfold conf at hc
+  have : 4 * (d.cfg / 4) + a.cfg % 4 % 4 = a.cfg := by omega
+  rw [this]
+
+theorem cfg_eq_of_conf_epv {d a : Content} (hc : conf a = conf d) (he : epv a = epv d) : a.cfg = d.cfg := by
+  unfold conf at hc; unfold epv at he; omega
+
+theorem dynStage_false {sh : Sh p} {bad : Nat → Bool} {rw : Bool} {w0 : FW p} {s0 : Store p} {hs0 hs1 : HStore p}
+    {w4 : FW p} (h : w0.g.committed = false) :
+    dynStage sh bad rw w0 s0 hs0 hs1 w4 =
+      { w := w4, s := s0, hs := hs1, sends := 0, updated := false, bchg := backChanged s0 } := by
+  simp [dynStage, h]
+
+theorem dynStage_true {sh : Sh p} {bad : Nat → Bool} {rw : Bool} {w0 : FW p} {s0 : Store p} {hs0 hs1 : HStore p}
+    {w4 : FW p} (h : w0.g.committed = true) :
+    dynStage sh bad rw w0 s0 hs0 hs1 w4 =
+      { w := { w4 with run := { w4.run with back := dynRun s0 bad w4.run.back } }, s := dynStore sh s0, hs := hs1
+        sends := totalSends s0
+        updated := !w0.tcp.changed && !hs0.isChanged && backendUpdated s0 bad w4.run.back w0.pcD && !rw
+        bchg := backChanged s0 } := by
+  simp [dynStage, h]
+
+/-- the outcome of one `HAProxyUpdate` with any fault, from the invariant of every history -/
+def UpdOutcome (o : Opt) (sh : Sh p) (f : Fault) (r : Res p) : Prop :=
+  (f.isWrite = true ∧ r.err = true ∧ r.w.rewriteOwed = true ∧ WInv sh r.w ∧ (o.queue = false → r.w.pending = false)) ∨
+  (r.w.rewriteOwed = false ∧ FInv o sh r.w ∧ DiskGood o sh r.w ∧ (o.queue = false → r.w.pending = false) ∧
+    (f.isReload = false → r.err = false ∧
+      (o.repaired = true → o.queue = false → RunGood sh r.w ∧ r.w.reloadOwed = false)) ∧
+    (o.repaired = true → (f.isReload = false ∨ o.queue = true) → r.w.pending = true ∨ r.w.reloadOwed = false))
+
+theorem upd_outcome {o : Opt} {sh : Sh p} (wf : sh.WF) (hrep : o.repaired = true) {w : FW p} (hj : JInv o sh w)
+    (f : Fault) : UpdOutcome o sh f (upd o sh f w) := by
+  unfold upd
+  cases hpre : pre o sh f w with
+  | error r =>
+    obtain ⟨h0, h1, h2, h3, h4⟩ := pre_err hj.wi hpre
+    exact Or.inl ⟨h0, h1, h2, h3, fun hq => by rw [h4]; exact hj.q hq⟩
+  | ok m =>
+    simp only []
+    have hm := pre_ok hpre
+    rw [hrep, Bool.true_and] at hm
+    subst hm
+    unfold UpdOutcome
+    cases hro : w.rewriteOwed with
+    | true =>
+      -- a rewrite is owed: `ForceRewrite()`, nothing is assumed about the files
+      have hs0 : SInv sh (allShards sh (shrink sh w.g.w.store)) := sinv_allShards (sinv_shrink hj.wi.s)
+      obtain ⟨hH, hmaps, hnil⟩ := hosts_after_rewrite w
+      have hall : ∀ k, k < sh.n → (allShards sh (shrink sh w.g.w.store)).changed k = true := by
+        intro k hk; simp [allShards, hk]
+      cases hcm : w.g.committed with
+      | false =>
+        have hcf : (w0Of w).g.committed = false := hcm
+        rw [dynStage_false hcf]
+        apply post_spec wf f
+        all_goals dsimp only
+        all_goals (try simp only [s0Of_true, hs0Of_true])
+        · exact hs0
+        · rw [w4Of_g]; exact hj.wi.g
+        · exact w4Of_rewriteOwed o sh true w
+        · intro _; rw [w4Of_g]; exact forced_write_good wf hs0 hall hj.wi.g
+        · intro x
+          unfold badX
+          cases hx : (allShards sh (shrink sh w.g.w.store)).items x with
+          | none => rfl
+          | some c =>
+            have := (flags_after_rewrite o sh w x (by simp [hx])).2
+            simp [this]
+        · rw [w4Of_h]; simp
+        · exact hH
+        · exact hmaps
+        · exact hnil
+        · exact tcp_after_rewrite o sh w
+        · exact fun x c hx hn => bm_after_rewrite o sh w x c hx hn
+        · exact fun x hx => flags_after_rewrite o sh w x hx
+        · rw [w4Of_pending]; exact hj.q
+        · intro h; cases h
+        · intro h; cases h
+      | true =>
+        have hct : (w0Of w).g.committed = true := hcm
+        rw [dynStage_true hct]
+        apply post_spec wf f
+        all_goals dsimp only
+        all_goals (try simp only [s0Of_true, hs0Of_true])
+        · exact sinv_dynStore hs0
+        · rw [w4Of_g]; exact hj.wi.g
+        · exact w4Of_rewriteOwed o sh true w
+        · intro _; rw [w4Of_g]
+          exact forced_write_good wf (sinv_dynStore hs0) (by simpa [dynStore_changed] using hall) hj.wi.g
+        · intro x
+          unfold badX
+          cases hx : (dynStore sh (allShards sh (shrink sh w.g.w.store))).items x with
+          | none => rfl
+          | some c =>
+            have hsome : ((allShards sh (shrink sh w.g.w.store)).items x).isSome = true := by
+              rw [← dynStore_items_isSome hs0]; simp [hx]
+            have := (flags_after_rewrite o sh w x hsome).2
+            simp [this]
+        · rw [w4Of_h]; simp
+        · exact hH
+        · exact hmaps
+        · exact hnil
+        · exact tcp_after_rewrite o sh w
+        · intro x c hx hn
+          obtain ⟨c0, hc0, hcc⟩ := dynStore_items_conf hs0 hx
+          rw [← hcc] at hn ⊢
+          exact bm_after_rewrite o sh w x c0 hc0 hn
+        · intro x hx
+          rw [dynStore_items_isSome hs0] at hx
+          exact flags_after_rewrite o sh w x hx
+        · rw [w4Of_pending]; exact hj.q
+        · intro h; simp at h
+        · intro h; simp at h
+    | false =>
+      -- no rewrite owed: the files follow the stores
+      have hi := hj.d hro
+      have hI0 : Inv sh { store := shrink sh w.g.w.store, disk := w.g.w.disk } := shrink_inv hi.b
+      obtain ⟨hH, hmaps, hnil⟩ := hosts_after_write hi
+      cases hcm : w.g.committed with
+      | false =>
+        have hcf : (w0Of w).g.committed = false := hcm
+        rw [dynStage_false hcf]
+        apply post_spec wf f
+        all_goals dsimp only
+        all_goals (try simp only [s0Of_false, hs0Of_false])
+        · exact sinv_of_inv hI0
+        · rw [w4Of_g]; exact hI0.g
+        · exact w4Of_rewriteOwed o sh false w
+        · intro _; rw [w4Of_g]; exact write_good wf hI0
+        · intro x
+          unfold badX
+          cases hx : (shrink sh w.g.w.store).items x with
+          | none => rfl
+          | some c =>
+            have := (flags_after_maps hi x (by simp [hx])).2
+            simp [this]
+        · rw [w4Of_h]; simp
+        · exact hH
+        · exact hmaps
+        · exact hnil
+        · exact tcp_after_lists hi
+        · exact fun x c hx hn => bm_after_maps hi x c hx hn
+        · exact fun x hx => flags_after_maps hi x hx
+        · rw [w4Of_pending]; exact hj.q
+        · intro h; cases h
+        · intro h; cases h
+      | true =>
+        have hct : (w0Of w).g.committed = true := hcm
+        have hIdyn : Inv sh { store := dynStore sh (shrink sh w.g.w.store), disk := w.g.w.disk } := dynStore_inv hI0
+        rw [dynStage_true hct]
+        apply post_spec wf f
+        all_goals dsimp only
+        all_goals (try simp only [s0Of_false, hs0Of_false, Bool.not_false, Bool.and_true])
+        · exact sinv_of_inv hIdyn
+        · rw [w4Of_g]; exact hI0.g
+        · exact w4Of_rewriteOwed o sh false w
+        · intro _; rw [w4Of_g]; exact write_good wf hIdyn
+        · intro x
+          unfold badX
+          cases hx : (dynStore sh (shrink sh w.g.w.store)).items x with
+          | none => rfl
+          | some c =>
+            have hsome : ((shrink sh w.g.w.store).items x).isSome = true := by
+              rw [← dynStore_items_isSome (sinv_of_inv hI0)]; simp [hx]
+            have := (flags_after_maps hi x hsome).2
+            simp [this]
+        · rw [w4Of_h]; simp
+        · exact hH
+        · exact hmaps
+        · exact hnil
+        · exact tcp_after_lists hi
+        · intro x c hx hn
+          obtain ⟨c0, hc0, hcc⟩ := dynStore_items_conf (sinv_of_inv hI0) hx
+          rw [← hcc] at hn ⊢
+          exact bm_after_maps hi x c0 hc0 hn
+        · intro x hx
+          rw [dynStore_items_isSome (sinv_of_inv hI0)] at hx
+          exact flags_after_maps hi x hx
+        · rw [w4Of_pending]; exact hj.q
+        · -- the write is skipped: nothing is pending after Shrink, the files already hold the items
+          intro _ _ hb k x
+          rw [w4Of_g]
+          have hn := backChanged_false hb x
+          have hpn : pair? (shrink sh w.g.w.store) x = none := pair?_none_of_add_none hn.1
+          simp only [itemsIn, dynStore_items, hpn]
+          by_cases hk : sh.shardOf x = k
+          · simp only [hk, if_true]
+            have := hI0.b x hn.1 hn.2
+            rw [hk] at this
+            exact this.symm
+          · simp only [hk, if_false]; exact hI0.g k x hk
+        · -- no reload follows: every runtime command was answered, HAProxy holds what the files will hold
+          intro hu
+          simp only [Bool.and_eq_true, Bool.not_eq_true'] at hu
+          obtain ⟨⟨htc, hhc⟩, hbu⟩ := hu
+          have htg := hi.t1 htc hcm
+          -- hosts are clean: WriteFrontendMaps was skipped, the maps are the ones HAProxy read
+          have hrb : w.h.shrink.rootBackendChanged = false := by
+            unfold HStore.rootBackendChanged
+            rw [anyFin_false_iff]
+            intro x
+            have : (w.h.shrink.bc x != w.h.shrink.bcC x) = false := by
+              have := hj.wi.hbc x
+              simp only [HStore.shrink]
+              simp [this]
+            simp [this]
+          have hskipH : hSkip w.h.shrink = true := by
+            unfold hSkip
+            have h1 : w.h.shrink.mapsNil = false := hi.hm hcm
+            simp [h1, hhc, hrb]
+          have hw : hWrite w.h.shrink = w.h.shrink := by unfold hWrite; simp [hskipH]
+          refine ⟨?_, ?_, ?_⟩
+          · rw [w4Of_tcp_main, w4Of_tcp_want]; exact htg.2
+          · rw [w4Of_mainHosts, hw]; exact hi.mh hcm
+          · rcases hi.r with hp | hp | hrg
+            · left; rw [w4Of_reloadOwed]; exact hp
+            · right; left; rw [w4Of_pending]; exact hp
+            · right; right
+              obtain ⟨r1, r2, r3, r4, r5, r6⟩ := hrg
+              refine ⟨?_, ?_, ?_, ?_, ?_, ?_⟩
+              · -- running servers
+                intro x c hx
+                show dynRun (shrink sh w.g.w.store) f.bad (w4Of o sh false w).run.back x = some c
+                rw [w4Of_run]
+                have hok : pairOK (shrink sh w.g.w.store) f.bad (w4Of o sh false w).run.back (w0Of w).pcD x = true := by
+                  unfold backendUpdated at hbu
+                  simp only [Bool.not_eq_true'] at hbu
+                  have := (anyFin_false_iff _).1 hbu x
+                  simpa using this
+                rw [dynStore_items] at hx
+                unfold dynRun
+                cases hp : pair? (shrink sh w.g.w.store) x with
+                | some da =>
+                  obtain ⟨d, a⟩ := da
+                  rw [hp] at hx
+                  simp only [Option.some.injEq] at hx
+                  obtain ⟨hd, ha, hle⟩ := pair?_eq_some.1 hp
+                  have hrd : w.run.back x = some d := r1 x d (by simp only [load]; exact hI0.c x d hd)
+                  unfold pairOK at hok
+                  simp only [ha, hp, Bool.and_eq_true, beq_iff_eq, Bool.not_eq_true'] at hok
+                  obtain ⟨⟨⟨hconf, _⟩, hbad⟩, _⟩ := hok
+                  simp only []
+                  by_cases he : epv a = epv d
+                  · have hcfg := cfg_eq_of_conf_epv hconf he
+                    simp only [he, ne_eq, not_true_eq_false, false_and, if_false, hrd]
+                    rw [← hx, hcfg]
+                  · have hns : nsend (shrink sh w.g.w.store) x = 1 + a.slots := by
+                      unfold nsend; simp [hp, he]
+                    have hb0 : f.bad (base (shrink sh w.g.w.store) x) = false := by
+                      have := anyRange_false hbad 0 (by omega)
+                      simpa using this
+                    simp only [ne_eq, he, not_false_eq_true, hb0, and_self, if_true, hrd, Option.map_some]
+                    rw [setEpv_eq hconf, ← hx]
+                | none =>
+                  rw [hp] at hx
+                  have hx' : (shrink sh w.g.w.store).items x = some c := hx
+                  simp only []
+                  cases ha : (shrink sh w.g.w.store).add x with
+                  | some a =>
+                    unfold pairOK at hok
+                    simp [ha, hp] at hok
+                  | none =>
+                    cases hd : (shrink sh w.g.w.store).del x with
+                    | some d =>
+                      have h2 : (shrink sh w.g.w.store).items x = none := hI0.b2 x ha (by simp [hd])
+                      rw [hx'] at h2; cases h2
+                    | none =>
+                      have h2 : (shrink sh w.g.w.store).items x = w.g.w.disk (sh.shardOf x) x := hI0.b x ha hd
+                      apply r1 x c
+                      simp only [load]
+                      rw [← h2]; exact hx'
+              · intro x
+                show (w4Of o sh false w).run.maps x = if (w4Of o sh false w).mainHosts = true then (w4Of o sh false w).h.maps x else none
+                rw [w4Of_run, w4Of_mainHosts, w4Of_h, hs0Of_false, hw]
+                exact r2 x
+              · intro x
+                show (w4Of o sh false w).run.bm x = (w4Of o sh false w).bm x
+                rw [w4Of_run, r3 x, w4Of_bm]
+                simp only [load, s0Of_false, visOf_false, Bool.or_false]
+                split
+                · cases ha : (shrink sh w.g.w.store).add x with
+                  | none => rfl
+                  | some a =>
+                    simp only []
+                    by_cases hn : o.needACL (conf a) = true
+                    · simp only [hn, if_true]
+                      -- the pair is updated: same `conf`, and the deleted object had its map written
+                      have hok : pairOK (shrink sh w.g.w.store) f.bad (w4Of o sh false w).run.back (w0Of w).pcD x = true := by
+                        unfold backendUpdated at hbu
+                        simp only [Bool.not_eq_true'] at hbu
+                        have := (anyFin_false_iff _).1 hbu x
+                        simpa using this
+                      unfold pairOK at hok
+                      simp only [ha] at hok
+                      cases hp : pair? (shrink sh w.g.w.store) x with
+                      | none => simp [hp] at hok
+                      | some da =>
+                        obtain ⟨d, a'⟩ := da
+                        obtain ⟨hd, ha', _⟩ := pair?_eq_some.1 hp
+                        rw [ha] at ha'; cases ha'
+                        simp only [hp, Bool.and_eq_true, beq_iff_eq] at hok
+                        have hconf := hok.1.1.1
+                        rw [shrink_del] at hd
+                        by_cases hm : matched w.g.w.store x = true
+                        · simp [hm] at hd
+                        · simp only [hm, Bool.false_eq_true, if_false] at hd
+                          rw [hconf] at hn ⊢
+                          exact hi.bm2 x d hd hn
+                    · simp [hn]
+                · rfl
+              · show (w4Of o sh false w).run.tcpMap = (w4Of o sh false w).tcp.map
+                have htc' : w.tcp.changed = false := htc
+                rw [w4Of_run, w4Of_tcp_map, r4]
+                simp [tcpWrites, htc']
+              · show (w4Of o sh false w).run.tcpCrt = (w4Of o sh false w).tcp.crt
+                rw [w4Of_run, w4Of_tcp_crt, r5]
+                split
+                · rename_i hw0
+                  have : w.tcp.want ≠ 0 := by simpa using hw0
+                  exact (htg.1 this).2
+                · rfl
+              · show (w4Of o sh false w).run.tcpMain = (w4Of o sh false w).tcp.main
+                rw [w4Of_run, w4Of_tcp_main, r6]
+
+/-- every `HAProxyUpdate`, whatever fails in it, keeps the invariant of every history -/
+theorem upd_jinv {o : Opt} {sh : Sh p} (wf : sh.WF) (hrep : o.repaired = true) {w : FW p} (hj : JInv o sh w)
+    (f : Fault) : JInv o sh (upd o sh f w).w := by
+  rcases upd_outcome wf hrep hj f with ⟨_, _, hro, hw, hq⟩ | ⟨hro, hf, _, hq, _⟩
+  · exact ⟨hw, hq, fun h => by rw [hro] at h; cases h⟩
+  · exact ⟨⟨sinv_of_inv hf.b, hf.b.g, hf.hbc⟩, hq, fun _ => hf⟩
+
+/-! ### the reload queue worker -/
+
+theorem qrun_jinv {o : Opt} {sh : Sh p} {w : FW p} (hj : JInv o sh w) (f : Fault) : JInv o sh (qrun sh f w).w := by
+  unfold qrun
+  cases hp : w.pending with
+  | false => simp only [Bool.not_false, if_true]; exact hj
+  | true =>
+    have hqt : o.queue = true := by
+      cases hqq : o.queue with
+      | true => rfl
+      | false => have := hj.q hqq; rw [hp] at this; cases this
+    simp only [Bool.not_true, Bool.false_eq_true, if_false, reload]
+    cases hf : f.isReload with
+    | true =>
+      simp only [if_true]
+      have hq' : o.queue = false → true = false := fun h => by rw [h] at hqt; cases hqt
+      refine ⟨⟨hj.wi.s, hj.wi.g, hj.wi.hbc⟩, hq', ?_⟩
+      intro hro
+      obtain ⟨hb, hh, hhm, hbc, hmh, ht1, ht2, hbm1, hbm2, hpc1, hpc2, _⟩ := hj.d hro
+      exact ⟨hb, hh, hhm, hbc, hmh, ht1, ht2, hbm1, hbm2, hpc1, hpc2, Or.inl rfl⟩
+    | false =>
+      simp only [Bool.false_eq_true, if_false]
+      refine ⟨⟨hj.wi.s, hj.wi.g, hj.wi.hbc⟩, fun _ => rfl, ?_⟩
+      intro hro
+      obtain ⟨hb, hh, hhm, hbc, hmh, ht1, ht2, hbm1, hbm2, hpc1, hpc2, _⟩ := hj.d hro
+      exact ⟨hb, hh, hhm, hbc, hmh, ht1, ht2, hbm1, hbm2, hpc1, hpc2, Or.inr (Or.inr (runGood_load rfl))⟩
+
+theorem qrun_diskGood {o : Opt} {sh : Sh p} {w : FW p} (hd : DiskGood o sh w) (f : Fault) :
+    DiskGood o sh (qrun sh f w).w := by
+  unfold qrun
+  cases w.pending with
+  | false => exact hd
+  | true =>
+    simp only [Bool.not_true, Bool.false_eq_true, if_false, reload]
+    cases f.isReload <;> exact hd
+
+/-- a fault-free run of the worker empties the queue and leaves HAProxy with the files, provided no reload
+is owed without being queued -/
+theorem qrun_settles {o : Opt} {sh : Sh p} {w : FW p} (hi : FInv o sh w) (hpo : w.pending = true ∨ w.reloadOwed = false)
+    {f : Fault} (hf : f.isReload = false) :
+    (qrun sh f w).err = false ∧ (qrun sh f w).w.pending = false ∧ (qrun sh f w).w.reloadOwed = false ∧
+      RunGood sh (qrun sh f w).w := by
+  unfold qrun
+  cases hp : w.pending with
+  | false =>
+    simp only [Bool.not_false, if_true]
+    have hro : w.reloadOwed = false := by
+      rcases hpo with h | h
+      · rw [hp] at h; cases h
+      · exact h
+    refine ⟨by first | rfl | trivial, hp, hro, ?_⟩
+    rcases hi.r with h | h | h
+    · rw [hro] at h; cases h
+    · rw [hp] at h; cases h
+    · exact h
+  | true =>
+    simp only [Bool.not_true, Bool.false_eq_true, if_false, reload, hf]
+    exact ⟨by first | rfl | trivial, by first | rfl | trivial, by first | rfl | trivial, runGood_load rfl⟩
 
 end HapVerif.C12
